@@ -6,6 +6,7 @@
 // Environment: VERIF_SETUP_DELAY_MS  sleep this long in the gate between zeroGroup.Start()
 //
 //	                      and the registration of the catalogue consumer
+//	VERIF_APPLY_DELAY_MS  a slow replica: ready cycles with committed entries start this much later
 //	SIGUSR1               request a local snapshot of the zero group (skip = 0)
 package main
 
@@ -19,7 +20,10 @@ import (
 	"syscall"
 	"time"
 
+	etcdRaft "github.com/coreos/etcd/raft"
+	"github.com/coreos/etcd/raft/raftpb"
 	"github.com/marekgalovic/anndb"
+	"github.com/marekgalovic/anndb/storage/raft"
 	log "github.com/sirupsen/logrus"
 )
 
@@ -46,6 +50,14 @@ func main() {
 	if d, _ := strconv.Atoi(os.Getenv("VERIF_SETUP_DELAY_MS")); d > 0 {
 		anndb.VerifGate = func(point string) {
 			if point == "setup.afterZeroStart" {
+				time.Sleep(time.Duration(d) * time.Millisecond)
+			}
+		}
+	}
+	if d, _ := strconv.Atoi(os.Getenv("VERIF_APPLY_DELAY_MS")); d > 0 {
+		// a slow replica: every ready cycle that has committed entries to apply starts this much later
+		raft.VerifHook = func(g *raft.RaftGroup, point string, rd *etcdRaft.Ready, entry *raftpb.Entry, err error) {
+			if point == "ready" && rd != nil && len(rd.CommittedEntries) > 0 {
 				time.Sleep(time.Duration(d) * time.Millisecond)
 			}
 		}
